@@ -3,7 +3,7 @@
 #include "base.h"
 
 // data spec: {"k":kind,"n":len,"s":seed,"p":param}
-enum DataKind { DK_RANDOM = 0, DK_SYM4, DK_PERIODIC, DK_ZEROS, DK_FF, DK_LONGREP, DK_TEXT, DK_MIXED, DK_RUNS, DK_FARCOPY, DK_SKEW, DK_ADLERMAX, DK_LITCOPY, DK_PAGES, DK_ALLSYMS, DK_RARE, DK_NKINDS };
+enum DataKind { DK_RANDOM = 0, DK_SYM4, DK_PERIODIC, DK_ZEROS, DK_FF, DK_LONGREP, DK_TEXT, DK_MIXED, DK_RUNS, DK_FARCOPY, DK_SKEW, DK_ADLERMAX, DK_LITCOPY, DK_PAGES, DK_ALLSYMS, DK_RARE, DK_DISTSKEW, DK_NKINDS };
 std::vector<uint8_t> make_data(const Json &spec);
 // overlay clusters of back-to-back short copies from far back (long distance extra bits, rare length symbols) on d
 void far_copies(uint8_t *d, size_t n, uint64_t seed);
